@@ -188,14 +188,14 @@ def _alarm(signum, frame):
     raise _Timeout()
 
 
-def _observe(fn):
+def _observe(fn, limit=5.0):
     """Run fn under a wall-clock alarm; return ('ok', value) | ('exc', type name)."""
     signal.signal(signal.SIGALRM, _alarm)
-    signal.setitimer(signal.ITIMER_REAL, 5.0)
+    signal.setitimer(signal.ITIMER_REAL, limit)
     try:
         return ("ok", fn())
     except _Timeout:
-        return ("hang", "no result within 5 s")
+        return ("hang", f"no result within {limit} s")
     except RecursionError:
         return ("exc", "RecursionError")
     except Exception as e:  # noqa: BLE001
@@ -331,7 +331,7 @@ def _run_cycles(ctx, threaded_modes=(True,), max_nodes=2):
             return "returned"
 
         old = sys.getrecursionlimit()
-        got = _observe(go)
+        got = _observe(go, limit=60.0)  # a RecursionError through the parser takes seconds on a loaded machine
         sys.setrecursionlimit(old)
         text = err.getvalue()
         # the statement only obliges termination; which error is printed is not part of it
